@@ -15,7 +15,7 @@ CHECKS = {
          "IEEE exactness of log2 on exact powers of two.", "DESIGN.md section 6 (C07)"),
  "C01": ("Lean 4 invariance theorems over the real-number instance of the polymorphic geometry + differential correspondence of the Float instance on rigid-motion twins",
          "The fingerprinter model takes geometry only through a Geo record (shell membership tests, stereo codes) built by Geo.ofCoords from the polymorphic functions of Model/Geom.lean; "
-         "Props/C01.lean proves the fingerprint is a function of those decisions and (over the real instance) that the decisions are invariant under proper rigid motions, and under all isometries when stereo is off. "
+         "Props/C01.lean proves (fully, no partial lemma) that over the real-number instance Geo.ofCoords is invariant under every proper rigid motion (rigid_invariant: orthogonal R, det R = 1, any translation, every molecule, option set and level) and, with stereo off, under every isometry (isometry_invariant_nostereo). "
          "Tied to the code by running the implementation and the Float instance on the same conformers and on rotated / translated / reflected twins (round-off band filtered by a 3e-14 A perturbation test and counted).",
          "Trusted: Lean kernel; extract.py; IEEE double vs real arithmetic (the band the property excludes); SciPy pdist, NumPy arccos; RDKit coordinates.",
          "DESIGN.md section 5 (C01)"),
@@ -24,11 +24,13 @@ CHECKS = {
          "executable specification; the implementation is compared with it at every level (centre, substructure, identifier), with atom masks, over the full option product, and against a golden corpus of identifiers.",
          "Trusted: Lean kernel; extract.py; the reading of the published algorithm in Model/Fprinter.lean; RDKit atom facts; mmh3 (compared). Known finding: bond types outside BOND_TYPES (dative) raise KeyError.",
          "DESIGN.md section 5 (C02)"),
- "C03": ("Lean 4 theorems on order-independence of the tie-breaks + differential correspondence on renumbered twins",
-         "Props/C03.lean: first-unique selection depends only on key multiplicities; tuple lists are sorted before hashing; duplicate removal is ordered by (identifier, centre). Tied to the code by "
-         "Chem.RenumberAtoms twins (all n! for <= 4 atoms, reversal / transpositions / random otherwise) and shuffled conformer storage order; the model (canonical atom-index tie-breaking) is compared with the "
+ "C03": ("Lean 4 relabelling-invariance theorem of the whole iteration (simulation proof) and order-independence theorems on the tie-breaks + differential correspondence on renumbered twins",
+         "Props/C03.lean: runFp_relabel / fingerprint_relabel - for every bijection of atom indices, every option set and every molecule with distinct atom indices, the renumbered run stops at the same level with the same multiset of "
+         "(identifier, substructure mapped back) at every level and an equal fingerprint for every level, folding and mask, given geometries related by Geo.Relabels; runFpE_fingerprint - Python's set iteration order never reaches the fingerprint; "
+         "first-unique selection depends only on key multiplicities. Tied to the code by Chem.RenumberAtoms twins (all n! for <= 4 atoms, reversal / transpositions / random otherwise) and shuffled conformer storage order; the model is compared with the "
          "implementation on each renumbered molecule.",
-         "Trusted: Lean kernel; float summation order in the mean vector (round-off band filtered). The full relabelling-invariance theorem of the whole iteration is partial (see DESIGN).",
+         "Trusted: Lean kernel; IEEE double vs real arithmetic (float summation order in the mean vector; round-off band filtered). The stereo tie hypothesis (S) of Geo.Relabels is derived from coordinates over the reals (runFp_relabel_coords / fingerprint_relabel_coords) "
+         "under the general-position predicate GenPos (retained atoms >= 1e-6 A apart, none within 1e-6 A of the line through two others unless on it), needed only with stereo on and proved necessary by counter-examples.",
          "DESIGN.md section 5 (C03)"),
  "C04": ("Lean 4 history-irrelevance theorem on the model of the Fingerprinter object (identity-driven resets, molecule-scoped caches) + differential correspondence on run() histories",
          "Props/C04.lean: CacheValid is an invariant of every history and a run from any state with valid caches equals a fresh fingerprinter's run (run_eq_fresh). Tied to the code by histories of 3-12 run() calls in four call forms "
@@ -39,8 +41,8 @@ CHECKS = {
          "Props/C12.lean on the discrete fingerprinter model: the label is the requested level; (growing) nesting, truncation and convergence theorems. Tied to the code by one run to L=14 per conformer queried at every level "
          "against separate runs limited to each k and a level -1 run.",
          "Trusted: Lean kernel; extract.py; harness.", "DESIGN.md section 7 (C12)"),
- "C18": ("Lean 4 frame theorems (coordinates of non-retained atoms are never read; hydrogens never retained) + differential correspondence on displaced / deleted atoms",
-         "Props/C18.lean: retained atoms are heavy (and bonded under exclusion); Geo.ofCoords is only evaluated at retained atoms. Tied to the code by displacing hydrogens and floating atoms, deleting floating atoms, and checking floating atoms contribute when exclusion is off.",
+ "C18": ("Lean 4 frame and deletion theorems (coordinates of non-retained atoms are never read; hydrogens never retained; deleting ignored atoms leaves the fingerprint equal) + differential correspondence on displaced / deleted atoms",
+         "Props/C18.lean: retained atoms are heavy (and bonded under exclusion); Geo.ofCoords is only evaluated at retained atoms; deleting the non-retained atoms (a strictly monotone renumbering of the retained ones, MonoRel) leaves every fingerprint equal (delete_floating_fingerprint_coords). Tied to the code by displacing hydrogens and floating atoms, deleting floating atoms, and checking floating atoms contribute when exclusion is off.",
          "Trusted: Lean kernel; RDKit invariants under atom deletion (assumed, exercised).", "DESIGN.md section 7 (C18)"),
  "C05": ("Lean 4 model of the CSR+names+props database with refinement theorems to a list of rows + differential correspondence on histories",
          "Machine-checked theorems (Props/C05.lean) over the database model (matrix rows, names, separately maintained name index, property "
@@ -80,7 +82,7 @@ CHECKS = {
          "by histories with one injected fault per batch (kind x position) and full state dumps before/after.",
          "Trusted: Lean kernel; harness dumps; SciPy/NumPy primitives compared on every run.", "DESIGN.md section 7 (C16)"),
  "C06": ("Lean 4 theorems relating the three metric routes to the definitions (generated ratio expressions, merge-kernel induction) + differential correspondence",
-         "Machine-checked theorems (Props/C06.lean) about the model of fprint_metrics / array_metrics (ratio expressions regenerated from the source; the sparse "
+         "Machine-checked theorems (Props/C06.lean, Props/C06Real.lean) about the model of fprint_metrics / array_metrics / the public dispatch in metrics/__init__ (routes_agree: fingerprint-vs-fingerprint, fingerprint-vs-database, database-vs-database and single-database forms give the same value, the one of the definition; ratio expressions regenerated from the source; the sparse "
          "Soergel kernel as the two-pointer merge it is): each route equals the definition, zero denominators score 0, symmetry, range, Soergel = Tanimoto on binary data. "
          "Tied to the code by evaluating five measures x eleven calling forms (fp/fp, fp/db, db/fp, db/db, single, fprint_metrics, dense, CSR canonical / shuffled / explicit zeros, assume_binary) "
          "on seeded operand pairs and comparing with the model's exact rationals (or num/sqrt(rad)).",
